@@ -218,6 +218,13 @@ fn parse(text: &str, allow_substvar: bool) -> Parse {
 
                 if self.current() == Some(IDENT) {
                     self.bump();
+                    // an epoch is lexed as IDENT COLON IDENT
+                    while self.current() == Some(COLON) {
+                        self.bump();
+                        if self.current() == Some(IDENT) {
+                            self.bump();
+                        }
+                    }
                 } else {
                     self.error("Expected version".to_string());
                 }
@@ -1304,14 +1311,21 @@ impl Relation {
         let vc = vc.as_ref()?;
         let constraint = vc.children().find(|n| n.kind() == CONSTRAINT);
 
-        let version = vc.children_with_tokens().find_map(|it| match it {
-            SyntaxElement::Token(token) if token.kind() == IDENT => Some(token),
-            _ => None,
-        });
+        // the version text may span several tokens (epoch: IDENT COLON IDENT)
+        let version = vc
+            .children_with_tokens()
+            .filter_map(|it| match it {
+                SyntaxElement::Token(token) if token.kind() == IDENT || token.kind() == COLON => {
+                    Some(token.text().to_string())
+                }
+                _ => None,
+            })
+            .collect::<Vec<_>>()
+            .concat();
 
-        if let (Some(constraint), Some(version)) = (constraint, version) {
+        if let (Some(constraint), false) = (constraint, version.is_empty()) {
             let vc: VersionConstraint = constraint.to_string().parse().unwrap();
-            return Some((vc, (version.text().to_string()).parse().unwrap()));
+            return Some((vc, version.parse().unwrap()));
         } else {
             None
         }
